@@ -41,6 +41,7 @@ type c19Case struct {
 	lay     Layout
 	seed    uint64
 	admin   bool
+	noWl    bool  // a directory of policies only: no workload, no Ingress, no Route
 	keepIdx []int // indices in docs that form the conflict (never removed by minimisation)
 }
 
@@ -104,10 +105,14 @@ func c19Build(seed uint64, cell c19Cell) *c19Case {
 		}
 	}
 	nw := r.between(2, 4)
+	if cell.kind != "podLabels" && r.chance(1, 8) {
+		// policies kept in a directory of their own (a policy repository): nothing to connect, the conflict is still one
+		nw, c.noWl = 0, true
+	}
 	for k := 0; k < nw; k++ {
 		others = append(others, workloadDoc(r, wl{pick(r, nsNames[:2]), fmt.Sprintf("w%d", k), pick(r, []string{"Deployment", "StatefulSet", "DaemonSet"}), randLabels(r, 1), randContainerPorts(r)}))
 	}
-	if r.chance(1, 3) {
+	if !c.noWl && r.chance(1, 3) {
 		// a front door: a service (selecting by label, so every pod is looked at), and in half of these an Ingress or a
 		// Route leading to it. Which component meets a conflict first depends on what else is in the directory.
 		sel := map[string]string{pick(r, labelKeys): pick(r, labelVals)}
@@ -392,6 +397,17 @@ func c19Steps(c *c19Case) []job.Step {
 	}
 	if !c.admin {
 		st = append(st, job.Step{Kind: job.List, Dir: "a", Fmt: "txt", Exposure: true})
+	}
+	if c.noWl {
+		// without workloads the parser reports a severe "nothing to analyse": under stop-on-error the analysis ends there,
+		// before any policy is looked at (C13 (c) allows exactly that), so only the commands without it are judged
+		var keep []job.Step
+		for _, x := range st {
+			if !x.Stop {
+				keep = append(keep, x)
+			}
+		}
+		st = keep
 	}
 	// narrowing the report must not narrow the validation: a workload that exists, one that does not, the synthetic one
 	st = append(st,
